@@ -1,12 +1,12 @@
 """C04 — relabelling after matching preserves both segmentations."""
 from __future__ import annotations
 import numpy as np
-import impl, gen
+import impl, gen, scale
 from impl import quiet, UnmatchedInstancePair, NaiveThresholdMatching, MaximizeMergeMatching
 from impl import IM
 from panoptica.utils.instancelabelmap import InstanceLabelMap
 
-RULE = ("memory layouts {C, Fortran, transposed view, negative strides} chosen independently for the two maps; labels of 4*10^7 with relabelling chains; unmatched instance-map pairs x dtype {uint8,16,32,64} x label sets placed at 2^k-1-j (k=8,16) and with gaps x "
+RULE = ("large-scale corpus (oracle only): arrays of 1.3M-2.25M voxels whose size is not a multiple of 2^20 with relabelled foreground in the C-order tail; the same property through Panoptica_Evaluator.evaluate (label histograms of the reported matched pair), incl. uint8/uint16 scenes with an outlying overlap voxel whose labels add up to 2^bits; memory layouts {C, Fortran, transposed view, negative strides} chosen independently for the two maps; labels of 4*10^7 with relabelling chains; unmatched instance-map pairs x dtype {uint8,16,32,64} x label sets placed at 2^k-1-j (k=8,16) and with gaps x "
         "{label map of the real matchers (threshold, many-to-one, merge), random functional label maps}; "
         "non-trivial = at least one unmatched prediction, or max reference label + #unmatched >= 2^bits - 2")
 
@@ -210,8 +210,121 @@ def corpus(ctx):
     one_case(ctx, pred, ref, [[1, 2]], "corpus.gaps")
 
 
+def scale_recipes():
+    """arrays beyond 2^20 / 2^21 voxels whose size is not a multiple of 2^20, with prediction foreground in the
+    C-order tail and a non-identity relabelling (matched, unmatched, merged predictions; an instance straddling a
+    2^20 boundary)"""
+    out = []
+    for shape in ([130, 100, 100], [1500, 1500], [3, 700, 1001]):
+        n = int(np.prod(shape))
+        tail = n - 5000
+        out.append(({"kind": "runs", "shape": shape, "dtype": "uint8",
+                     "ref_runs": [[100, 900, 1], [2 ** 20 - 400, 900, 2], [tail, 800, 3], [tail + 2000, 500, 4]],
+                     "pred_runs": [[100, 800, 3], [2 ** 20 - 300, 900, 4], [tail, 700, 2], [tail + 2000, 300, 1], [tail + 2300, 200, 7], [tail + 3000, 100, 9]]},
+                    [[3, 1], [4, 2], [2, 3], [1, 4], [7, 4]]))
+    return out
+
+
+def scale_case(ctx, rec, lmap_order, src):
+    pred, ref = scale.build(rec)
+    inp = {"recipe": rec, "lmap": lmap_order, "src": src}
+    ctx.case(inp, True)
+    ctx.count("scale_oracle_only")
+    lm = InstanceLabelMap()
+    for p, r in lmap_order:
+        lm.add_labelmap_entry(int(p), int(r))
+    try:
+        with quiet():
+            mp = IM.map_instance_labels(UnmatchedInstancePair(pred.copy(), ref.copy()), lm)
+    except Exception as e:
+        ctx.violation(f"relabelling raised {type(e).__name__}: {e} on a large array", inp, key={"kind": "raises"})
+        return
+    fails = check_relabel(pred, ref, mp.prediction_arr, mp.reference_arr, {int(p): int(r) for p, r in lmap_order})
+    if fails:
+        ctx.violation("C04 violated on a large array: " + fails[0], inp, impl={"dtype": str(mp.prediction_arr.dtype)}, key={"kind": "relabel"})
+
+
+def histogram(a):
+    v, c = np.unique(a, return_counts=True)
+    return {int(x): int(y) for x, y in zip(v, c) if x != 0}
+
+
+def evaluate_case(ctx, pred, ref, matcher_kind, thr, src):
+    """the same property observed through the public entry point: the matched pair reported by
+    Panoptica_Evaluator.evaluate (cropped to the joint bounding box, hence compared by label histograms) has the
+    reference's label histogram, the prediction's foreground size and the prediction's multiset of instance sizes
+    up to merging of predictions assigned to one reference"""
+    from panoptica import Panoptica_Evaluator, InputType
+    inp = {"shape": list(pred.shape), "dtype": str(pred.dtype), "pred": gen.arr_json(pred), "ref": gen.arr_json(ref),
+           "matcher": matcher_kind, "thr": thr, "src": src, "via": "evaluate"}
+    m = {"naive": NaiveThresholdMatching(matching_threshold=thr),
+         "m2o": NaiveThresholdMatching(matching_threshold=thr, allow_many_to_one=True),
+         "merge": MaximizeMergeMatching(matching_threshold=thr)}[matcher_kind]
+    ctx.case(inp, True)
+    ctx.count("via_evaluate")
+    try:
+        with quiet(), np.errstate(all="ignore"):
+            ev = Panoptica_Evaluator(expected_input=InputType.UNMATCHED_INSTANCE, instance_matcher=m, verbose=False)
+            res, inter = ev.evaluate(pred.copy(), ref.copy(), verbose=False)["ungrouped"]
+            mp_pred = inter.prediction_arr(InputType.MATCHED_INSTANCE)
+            mp_ref = inter.reference_arr(InputType.MATCHED_INSTANCE)
+    except Exception as e:
+        ctx.count("evaluate_raised." + type(e).__name__)
+        return
+    if histogram(mp_ref) != histogram(ref):
+        ctx.violation(f"reference map changed by matching (through evaluate): label histogram {histogram(ref)} -> {histogram(mp_ref)}",
+                      inp, impl={"ref_hist": histogram(mp_ref)}, key={"kind": "relabel-evaluate"})
+    elif int(np.count_nonzero(mp_pred)) != int(np.count_nonzero(pred)):
+        ctx.violation(f"prediction foreground changed by matching (through evaluate): {int(np.count_nonzero(pred))} -> {int(np.count_nonzero(mp_pred))} voxels",
+                      inp, impl={"pred_hist": histogram(mp_pred)}, key={"kind": "relabel-evaluate"})
+    elif res.num_ref_instances != len(histogram(ref)):
+        ctx.violation(f"number of reference instances changed by matching (through evaluate): {len(histogram(ref))} -> {res.num_ref_instances}",
+                      inp, key={"kind": "relabel-evaluate"})
+
+
+def complementary_scene(rng, bits):
+    """a scene in a narrow unsigned dtype in which an outlying overlap voxel carries labels that add up to 2^bits
+    (and others that add up to 2^bits - 1 / + 1)"""
+    dt = DT[bits]
+    top = 2 ** bits
+    shape = (rng.randint(14, 22), rng.randint(14, 22))
+    pred, ref = np.zeros(shape, dt), np.zeros(shape, dt)
+    a = rng.randint(1, top - 1)
+    ref[2:7, 2:7] = 3
+    pred[3:8, 2:7] = 5 if a != 5 else 6
+    y, x = shape[0] - 2 - rng.randint(0, 1), shape[1] - 2 - rng.randint(0, 1)
+    delta = rng.choice([0, 0, 0, 1, -1])
+    pa, ra = a, top - a + delta
+    if not (0 < ra < top) or ra == 3 or pa in (5, 6):
+        return None
+    pred[y, x], ref[y, x] = pa, ra
+    if rng.random() < 0.5:
+        pred[y - 1, x], ref[y - 1, x] = pa, ra
+    return pred, ref
+
+
+def evaluate_cases(ctx, n):
+    rng = ctx.rng
+    for i in range(n):
+        if rng.random() < 0.5:
+            sc = complementary_scene(rng, rng.choice([8, 8, 16]))
+            if sc is None:
+                continue
+            pred, ref = sc
+            ctx.count("labels_adding_up_to_2^bits")
+        else:
+            c = gen_case(rng)
+            if c is None:
+                continue
+            pred, ref = c
+        evaluate_case(ctx, pred, ref, rng.choice(["naive", "m2o", "merge"]), rng.choice([0.1, 0.5]), f"eval{i}")
+
+
 def run(ctx):
     corpus(ctx)
+    for k, (rec, lm) in enumerate(scale_recipes()):
+        scale_case(ctx, rec, lm, f"scale{k}")
+    evaluate_cases(ctx, ctx.scale(120, 1200))
     big_label_cases(ctx)
     run_cases(ctx, ctx.scale(1200, 12000), "rand")
 
@@ -222,6 +335,14 @@ def search(ctx):
 
 def replay(ctx, rec):
     i = rec["input"]
+    if "recipe" in i:
+        scale_case(ctx, i["recipe"], i["lmap"], "replay")
+        return
+    if i.get("via") == "evaluate":
+        dt = np.dtype(i["dtype"])
+        evaluate_case(ctx, np.array(i["pred"], dtype=dt).reshape(i["shape"]), np.array(i["ref"], dtype=dt).reshape(i["shape"]),
+                      i["matcher"], i["thr"], "replay")
+        return
     dt = DT[i["bits"]]
     one_case(ctx, np.array(i["pred"], dtype=dt).reshape(i["shape"]), np.array(i["ref"], dtype=dt).reshape(i["shape"]),
              i["lmap"], "replay")
